@@ -40,7 +40,7 @@ FUNCTIONS = [
     dict(out='vfs_inode_is_pseudo_fs', fn='is_pseudo_fs', file=V, impl='VfsInode', opaque=[('self.0', 'self0', 'tuple:VfsInode')]),
     dict(out='vfs_inode_fs_idx', fn='fs_idx', file=V, impl='VfsInode', opaque=[('self.0', 'self0', 'tuple:VfsInode')]),
     dict(out='vfs_inode_ino', fn='ino', file=V, impl='VfsInode', opaque=[('self.0', 'self0', 'tuple:VfsInode')]),
-    dict(out='vfs_convert_inode', fn='convert_inode', file=V, impl='Vfs', prefix_until_let='ino', result_var='ino'),
+    dict(out='vfs_convert_inode', fn='convert_inode', file=V, impl='Vfs'),
     dict(out='seal_size_check', fn='seal_size_check', file=PM, impl='PassthroughFs', enums=['Opcode'], helpers=[PU]),
     dict(out='get_writeback_open_flags', fn='get_writeback_open_flags', file=PM, impl='PassthroughFs',
          opaque=[('self.writeback.load(Ordering::Relaxed)', 'writeback', 'bool')]),
@@ -54,8 +54,6 @@ FUNCTIONS = [
          opaque=[('id.ino', 'host_ino', 'field:InodeId.ino:src/passthrough/inode_store.rs'),
                  ('self.next_virtual_inode.load(Ordering::Relaxed)', 'next_virtual', 'u64'),
                  ('self.next_virtual_inode.fetch_add(1,Ordering::Relaxed)', 'next_virtual', 'u64')]),
-    dict(out='is_whiteout', fn='is_whiteout', file=OV,
-         opaque=[('st.st_mode', 'st_mode', 'u32'), ('st.st_rdev', 'st_rdev', 'u64')]),
 ]
 
 # libc functions used by the sources above, as the libc crate defines them for linux (trusted transcription)
@@ -977,7 +975,12 @@ def translate_fn(world, spec):
             if x not in p.used[key]: raise PureError('fn %s: %s entry %s matches nothing' % (spec['fn'], key, x))
     for x in spec.get('drop_iflet', []):
         if x not in getattr(tr, 'dropped_iflet', set()): raise PureError('fn %s: `if let .. = %s` with only effects not found' % (spec['fn'], x))
-    return params + extra, coq
+    rt = 'None'
+    rtxt = re.sub(r'^->', '', fn['ret'])
+    m = re.fullmatch(r'(?:\w+::)*(?:Result|Option)<(.+?)(?:,.*)?>', rtxt)
+    r = tr.resolve_ty(m.group(1) if m else rtxt) if rtxt else None
+    if r in ITY: rt = '(Some %s)' % ITY[r]
+    return params + extra, rt, coq
 
 def pretty(term, width=110):
     """break the one-line term at top-level-ish parentheses so that the generated file is readable and diff-friendly"""
@@ -994,12 +997,12 @@ def pretty(term, width=110):
     return '\n'.join(out)
 
 def translate(repo):
-    """-> (list of (out name, params, coq body term), list of error strings)"""
+    """-> (list of (out name, params, result type, coq body term), list of error strings)"""
     world = World(repo); defs = []; errs = []
     for spec in FUNCTIONS:
         try:
-            params, coq = translate_fn(world, spec)
-            defs.append((spec['out'], params, coq))
+            params, rt, coq = translate_fn(world, spec)
+            defs.append((spec['out'], params, rt, coq))
         except PureError as ex:
             errs.append('%s (%s): %s' % (spec['out'], spec['file'], ex))
         except rust_abi.TranslateError as ex:
@@ -1015,9 +1018,9 @@ def emit_coq(defs, errs):
          'Import ListNotations.',
          'Local Open Scope string_scope.',
          '']
-    for name, params, coq in defs:
+    for name, params, rt, coq in defs:
         ps = '; '.join('(%s, %s)' % (q(n), t) for n, t in params)
-        L.append('Definition %s_src : rfun := {| params := [%s]; body :=\n%s |}.' % (name, ps, pretty(coq)))
+        L.append('Definition %s_src : rfun := {| params := [%s]; ret := %s; body :=\n%s |}.' % (name, ps, rt, pretty(coq)))
         L.append('')
     for e in errs:
         L.append('(* NOT TRANSLATED: %s *)' % e.replace('*)', '* )'))
